@@ -2,6 +2,9 @@ package main
 
 import (
 	"fmt"
+
+	"gorm.io/gorm"
+
 	"sort"
 	"strings"
 )
@@ -43,8 +46,13 @@ func checkStep(c Cfg, pre *Model, op Op, o *Obs) (post *Model, fails []string) {
 		return nil, fails
 	}
 	if o.Err != "" {
-		fail("call returned an error: %s", o.Err)
-		return nil, fails
+		// a slice of parents takes one value per parent: a call without values
+		// is a length mismatch that gorm reports; it must still change nothing
+		lengthRule := c.Slice && op.Code == "Append" && len(op.Args) == 0 && o.Err == gorm.ErrInvalidValueOfLength.Error()
+		if !lengthRule {
+			fail("call returned an error: %s", o.Err)
+			return nil, fails
+		}
 	}
 	// keys of the argument records
 	for i, arg := range op.Args {
